@@ -141,6 +141,10 @@ def has_sym(v, depth=0):
         return any(has_sym(x, depth + 1) for x in v)
     if isinstance(v, dict):
         return any(has_sym(x, depth + 1) for x in v.values()) or any(has_sym(x, depth + 1) for x in v.keys())
+    # a real Michelson type class parametrised by ghost component types (induction-step harnesses)
+    if isinstance(v, type) and getattr(v, '__module__', '').startswith('pytezos'):
+        a = v.__dict__.get('args')
+        return bool(a) and depth < 4 and any(has_sym(x, depth + 1) for x in a)
     # real repository objects used as containers (e.g. MichelsonStack.items) may hold symbolic records
     if depth < 3 and getattr(type(v), '__module__', '').startswith('pytezos') and not isinstance(v, type):
         d = getattr(v, '__dict__', None)
